@@ -8,7 +8,8 @@
 //!   cdecx <Type> <hex> <a|r> [label]    like `cdec`    model accepts THE SAME VALUE) and `reject` under `r`.
 //!   dectrunc <Type> <hex>               every cut of `cuts(len)` through `rmp_serde::from_slice::<T>`: run-length coded a|r (raw
 //!   cdectrunc <Type> <hex>              acceptance; exact: no strict prefix of an encoding is a value on either side)
-//!   recdectrunc <Type> <hex>            the same through from_record + try_deserialize_record: h (header error) | a | r
+//!   recdectrunc <Type> <hex>            the same through from_record AND try_deserialize_record (both on every cut): a (both accept) |
+//!                                       r (header only) | h (neither) | b (body without a header)
 //!   crepl <n> <byte hex>                the worst-case honest `Cmd::Replicate` of n records (32-byte record keys, NonChunk content
 //!                                       hashes, every byte = <byte>) through the real codec: `len=.. fnv=.. read=ok|err`
 //!   cresp <n> <byte hex>                `GetReplicatedRecord(Ok((RecordKey(), n × <byte>)))` through the real codec, likewise
@@ -332,13 +333,14 @@ pub fn exec_fam(ws: &[&str], tys: &[Ty]) -> Option<String> {
             let b = unhex(ws[2])?;
             let t = ty(ws[1])?;
             Some(verdicts(b.len(), &|k| {
+                // both entry points on every cut, also below the header's length (callers reach try_deserialize_record
+                // without from_record, e.g. the client's get paths)
                 let r = record(b[..k].to_vec());
-                if RecordHeader::from_record(&r).is_err() {
-                    "h"
-                } else if (t.recdec)(&r).is_ok() {
-                    "a"
-                } else {
-                    "r"
+                match (RecordHeader::from_record(&r).is_ok(), (t.recdec)(&r).is_ok()) {
+                    (true, true) => "a",
+                    (true, false) => "r",
+                    (false, false) => "h",
+                    (false, true) => "b",
                 }
             }))
         }
